@@ -222,7 +222,11 @@ class ExprMixin:
         return app(op, P(a), P(b))
 
     def e_IfExp(self, node, st):
-        t = truth(self.eval(node.test, st))
+        tv0 = self.eval(node.test, st)
+        t = truth(tv0)
+        if t is None:
+            from .interp import implied
+            t = implied(tv0, st.conds)
         if t is None:
             ch = st.choices.get(id(node))
             if ch is None:
